@@ -6,7 +6,8 @@ From Coq Require Import String Ascii List Bool NArith ZArith.
 From CC Require Import Base.Str Asm.Lines M6502.Isa Asm.Operand M6502.Sem
      Model.CheckBranches Model.CbSpec Proofs.CbFacts.
 From CC Require Import Model.Optimize Model.OptSem Model.OptSim Model.OptSimCF Model.CbSim
-     Proofs.OptSimFacts Proofs.OptSimCFFacts Proofs.CbSimFacts.
+     Model.OptSimCall Proofs.OptSimFacts Proofs.OptSimCFFacts Proofs.CbSimFacts.
+From CC Require Proofs.OptSimCallFacts.
 From CC Require Proofs.GenLoopsFacts.
 Import ListNotations.
 
@@ -112,3 +113,37 @@ Proof. exact check_branches_sound_example. Qed.
 Definition C03_cb_code_repaired := cb_code_repaired.
 Definition C03_cb_pair_example := cb_pair_example.
 Definition C03_pipeline_sound_example := pipeline_sound_example.
+
+(** * Whole programs, with calls and returns *)
+
+(** one body with calls, any oracle: the repaired body ends the same way in the same state *)
+Theorem C03_check_branches_call_sound : forall Or cfg c c' n s r s',
+  no_fix_labels c -> check_branches c = CbOk c' n ->
+  ghalts Or cfg c s r s' -> ghalts Or cfg c' s r s'.
+Proof. exact OptSimCallFacts.check_branches_call_sound. Qed.
+
+(** every function repaired *)
+Theorem C03_check_branches_program_sound : forall cfg P main s s',
+  bytes_ok s -> all_bodies (OptSimCallFacts.cb_ok cfg) P ->
+  phalts cfg P main s s' ->
+  exists s'', phalts cfg (cb_prog P) main s s'' /\ eq_state s'' s'.
+Proof. exact OptSimCallFacts.check_branches_program_sound. Qed.
+
+Theorem C03_check_branches_program_run : forall cfg P main s s',
+  bytes_ok s -> all_bodies (OptSimCallFacts.cb_ok cfg) P ->
+  run_halts cfg P main s s' ->
+  exists s'', run_halts cfg (cb_prog P) main s s'' /\ eq_state s'' s'.
+Proof. exact OptSimCallFacts.check_branches_program_run. Qed.
+
+(** what the compiler emits at -O1 for a whole program: every function optimised, then repaired *)
+Theorem C03_pipeline_program_sound : forall cfg P main s s',
+  ports cfg = [] -> bytes_ok s -> all_bodies (OptSimCallFacts.pipe_ok cfg) P ->
+  phalts cfg P main s s' ->
+  exists s'', phalts cfg (cb_prog (opt_prog P)) main s s'' /\ eq_state s'' s'.
+Proof. exact OptSimCallFacts.pipeline_program_sound. Qed.
+
+Theorem C03_pipeline_program_run : forall cfg P main s s',
+  ports cfg = [] -> bytes_ok s -> all_bodies (OptSimCallFacts.pipe_ok cfg) P ->
+  run_halts cfg P main s s' ->
+  exists s'', run_halts cfg (cb_prog (opt_prog P)) main s s'' /\ eq_state s'' s'.
+Proof. exact OptSimCallFacts.pipeline_program_run. Qed.
